@@ -138,3 +138,16 @@ pub fn arg_bytes(call: &Value, name: &str) -> Vec<u8> {
 pub fn arg_str<'a>(call: &'a Value, name: &str) -> &'a str {
     call[name].as_str().unwrap_or("")
 }
+
+/// A formatting sink that accepts `0` more bytes and then fails.
+pub struct Limited(pub usize);
+impl std::fmt::Write for Limited {
+    fn write_str(&mut self, s: &str) -> std::fmt::Result {
+        if s.len() > self.0 {
+            self.0 = 0;
+            return Err(std::fmt::Error);
+        }
+        self.0 -= s.len();
+        Ok(())
+    }
+}
